@@ -137,6 +137,9 @@ where
                         crate::verif::emit("reqrep_adopt_client", &next_id.to_string());
 
                         *next_id += 1;
+                        // Keep draining the channel: its waker is only registered by a
+                        // poll that returns Pending
+                        continue;
                     }
                     Socket::Server((si, st)) => {
                         if server.is_some() {
@@ -152,6 +155,7 @@ where
                             #[cfg(selium_verif)]
                             crate::verif::emit("reqrep_bind", "");
                         }
+                        continue;
                     }
                 },
                 // If handle is terminated, the stream is dead
